@@ -206,6 +206,11 @@ func Run(r *evidence.Run, o Opts) {
 		os.Exit(2)
 	}
 	defer os.RemoveAll(dir)
+	// workers create their scratch under the supervisor's directory, so that whatever a killed
+	// or crashed worker leaves behind goes away with it
+	if wtmp := filepath.Join(dir, "tmp"); os.Mkdir(wtmp, 0o700) == nil {
+		o.Env = append(append([]string{}, o.Env...), "TMPDIR="+wtmp)
+	}
 
 	type span struct{ from, to int }
 	spans := make(chan span, o.Total/o.Batch+2)
